@@ -28,6 +28,7 @@ from ..prefix import Prefix, Prefixed
 from ..scalar import Scalar
 from ..literal import Literal
 from ..elab import Elaboratables, elaborate
+from .. import _verif
 from ..module import Module
 from ..qualname import qualname as module_qualname
 from ..external_module import ExternalModule, ExternalModuleCall
@@ -93,6 +94,7 @@ class ProtoExporter:
             if not isinstance(m, Module):
                 raise TypeError
             self.export_module(m)
+        _verif.emit("export", pkg=self.pkg, tops=self.tops)
         return self.pkg
 
     def export_module_name(self, module: Module) -> vlsir.utils.QualifiedName:
